@@ -84,3 +84,53 @@ func HC06_TargetDeath() {
 	x.checkStats()
 	vReach("end")
 }
+
+func init() { vRegister("HC06_Stats", HC06_Stats) }
+
+// HC06_Stats: World.Stats() (first call and updates of the re-used object) reports
+// per node the tables in use while relation tables are created for new targets,
+// retired when their target dies, re-used and reset.
+func HC06_Stats() {
+	_, capInc, relInc := hConfig()
+	x := hNew(0, 6, capInc, relInc)
+	x.checkStats()
+	x.opNewEntity(0)                                 // 0: p1
+	x.opBuilderNew(1<<uR1, uR1, true, x.h[0], false) // 1: child of p1
+	x.checkStats()
+	x.opNewEntity(0) // 2: p2
+	x.opNewEntity(0) // 3: p3
+	x.opBuilderNew(1<<uR1, uR1, true, x.h[2], false)      // 4: child of p2 (new table slot since the last Stats call)
+	x.opBuilderNew(1<<uA|1<<uR1, uR1, true, x.h[3], true) // 5: child of p3 in a new node
+	if vChoice("between", 2) == 1 {
+		x.checkStats()
+	}
+	x.opBuilderNew(1<<uR1, uR1, true, x.h[3], false) // 6: child of p3
+	x.checkStats()
+	// a target dies with an empty / non-empty table
+	v := vChoice("victim", 3)
+	switch v {
+	case 0:
+		x.opRemoveEntity(4)
+		x.opRemoveEntity(2) // table of p2 is retired
+	case 1:
+		x.opRemoveEntity(2) // table of p2 stays (non-empty, dead target)
+	default:
+		x.opRemoveEntity(6)
+		x.opRemoveEntity(5)
+		x.opRemoveEntity(3) // two nodes retire a table
+	}
+	x.inv()
+	x.checkStats()
+	x.opNewEntity(0)                                      // 7: p4 (may re-use the id of a dead parent)
+	x.opBuilderNew(1<<uR1, uR1, true, x.h[7], false)      // 8: child of p4: re-uses a retired slot or opens a new one
+	x.checkStats()
+	if vChoice("reset", 2) == 1 {
+		x.opReset()
+		x.checkStats()
+		x.opNewEntity(0)
+		x.opBuilderNew(1<<uR1, uR1, true, x.h[0], false)
+		x.checkStats()
+	}
+	x.inv()
+	vReach("end")
+}
